@@ -195,6 +195,8 @@ def run(prop, tier, seed, nshards, only_sub, write_evidence=True):
         print("  %-28s cases=%-6d nontrivial=%-6d timeouts=%d budget-skipped=%d classes=%s" % (
             name, a["evaluations"], len(a["distinct_nontrivial"]), a["timeouts"], a["skipped_budget"],
             dict(sorted(a["classes"].items()))))
+        if a["info_max"]:
+            print("  %-28s reached maxima: %s" % ("", a["info_max"]))
     for l in lines:
         print(l)
     if harness_errors:
